@@ -1,0 +1,8 @@
+//go:build !verif
+
+// Package verifhook provides yield points for the verification harness in
+// /verif. Without the verif build tag they compile to nothing.
+package verifhook
+
+// At does nothing unless built with the verif tag.
+func At(point string, key any) {}
